@@ -15,16 +15,16 @@ variable {V : Type}
 structure WF (C : Cls) : Prop where
   nameMem    : ∀ f ∈ C.fields, f.name ∈ f.aliases
   attMem     : ∀ f ∈ C.fields, f.attname ∈ f.aliases
-  /-- base.py:277-325: a key resolves to at most one field -/
+  /-- base.py:291-346 `generate_aliases`: a key resolves to at most one field -/
   disjoint   : ∀ f ∈ C.fields, ∀ g ∈ C.fields, ∀ k, k ∈ f.aliases → k ∈ g.aliases → f = g
-  /-- fragment: getter-only properties (field.py:1201-1205) -/
+  /-- fragment: getter-only properties (field.py:1239-1243) -/
   propPlain  : ∀ p ∈ C.fields, p.isProp = true →
                  p.required = false ∧ p.immutable = false ∧ p.noOutput = false ∧ p.dependants = []
   /-- fragment: properties are computed from declared non-property fields -/
   depsPlain  : ∀ p ∈ C.fields, p.isProp = true → ∀ d ∈ p.deps, ∃ f ∈ C.fields, f.name = d ∧ f.isProp = false
-  /-- field.py:702-727 `apply_fields`: a dependency knows its dependants -/
+  /-- field.py:691-744 `apply_fields`: a dependency knows its dependants -/
   depsListed : ∀ p ∈ C.fields, p.isProp = true → ∀ f ∈ C.fields, f.name ∈ p.deps → p.name ∈ f.dependants
-  /-- dependants are recorded by field name (field.py:680-683, 721) -/
+  /-- dependants are recorded by field name (field.py:686-689, 733) -/
   depNames   : ∀ f ∈ C.fields, ∀ q ∈ f.dependants, ∀ p, getField C q = some p → p.name = q
 
 theorem getField_some {C : Cls} {k : String} {f : Field} (h : getField C k = some f) :
@@ -101,8 +101,8 @@ def clearAttrs (C : Cls) (s : State V) : Map V :=
   C.fields.foldl (fun a f => if s.data.has f.name then a.del f.attname else a) s.attrs
 
 def Prim.apply (C : Cls) (W : World V) (s : State V) : Prim V → State V
-  | .store f pv => coerceDependants C W (storeField s f pv) f
-  | .recompute p => coerce C W s p
+  | .store f pv => (coerceDependants false C W (storeField s f pv) f).1
+  | .recompute p => (coerce false C W s p).1
   | .setAdd k v => { s with data := s.data.set k v }
   | .remove f => { data := s.data.del f.name, attrs := s.attrs.del f.attname }
   | .delKey k => { s with data := s.data.del k }
@@ -112,39 +112,40 @@ def Prim.apply (C : Cls) (W : World V) (s : State V) : Prim V → State V
 
 /-- side conditions under which the mutators perform a primitive.  `strict` additionally demands that
 a removed field has no stored dependant (the region outside the known defect). -/
-def Prim.ok (strict : Bool) (C : Cls) (W : World V) (s : State V) : Prim V → Prop
+def Prim.ok (strict : Bool) (xs : List V) (C : Cls) (W : World V) (s : State V) : Prim V → Prop
   | .store f pv => f ∈ C.fields ∧ f.isProp = false ∧ f.immutable = false ∧ C.opts.immutable = false ∧
-      ∃ x, W.parse f.name x = some pv
-  | .recompute p => p ∈ C.fields ∧ p.isProp = true
+      (∃ x ∈ xs, W.parse f.name x = some pv) ∧
+      (coerceDependants false C W (storeField s f pv) f).2 = false     -- every recomputed dependant converted
+  | .recompute p => p ∈ C.fields ∧ p.isProp = true ∧ (coerce false C W s p).2 = false
   | .setAdd k v => getField C k = none ∧ C.opts.immutable = false ∧
-      (C.opts.addition = .allow ∨ (C.opts.addition = .typed ∧ ∃ x, W.parseAdd x = some v))
+      ((C.opts.addition = .allow ∧ v ∈ xs) ∨ (C.opts.addition = .typed ∧ ∃ x ∈ xs, W.parseAdd x = some v))
   | .remove f => f ∈ C.fields ∧ f.immutable = false ∧ C.opts.immutable = false ∧
       (f.required = false ∨ C.opts.ignoreRequired = true) ∧ s.data.has f.name = true ∧
       (strict = true → ∀ q ∈ f.dependants, s.data.has q = false)
   | .delKey k => getField C k = none
   | .clear => ∀ f ∈ C.fields, f.immutable = false ∧ (f.required = false ∨ C.opts.ignoreRequired = true)
-  | .setAttrOther a _ => fieldByAtt C a = none
+  | .setAttrOther a v => fieldByAtt C a = none ∧ v ∈ xs
   | .delAttrOther a => fieldByAtt C a = none
 
-inductive Trace (strict : Bool) (C : Cls) (W : World V) : State V → State V → Prop where
-  | refl (s : State V) : Trace strict C W s s
-  | step {s s' : State V} (p : Prim V) : Prim.ok strict C W s p → Trace strict C W (p.apply C W s) s' →
-      Trace strict C W s s'
+inductive Trace (strict : Bool) (xs : List V) (C : Cls) (W : World V) : State V → State V → Prop where
+  | refl (s : State V) : Trace strict xs C W s s
+  | step {s s' : State V} (p : Prim V) : Prim.ok strict xs C W s p → Trace strict xs C W (p.apply C W s) s' →
+      Trace strict xs C W s s'
 
-theorem Trace.one {strict : Bool} {C : Cls} {W : World V} {s : State V} (p : Prim V)
-    (h : Prim.ok strict C W s p) : Trace strict C W s (p.apply C W s) :=
+theorem Trace.one {strict : Bool} {xs : List V} {C : Cls} {W : World V} {s : State V} (p : Prim V)
+    (h : Prim.ok strict xs C W s p) : Trace strict xs C W s (p.apply C W s) :=
   .step p h (.refl _)
 
-theorem Trace.trans {strict : Bool} {C : Cls} {W : World V} {a b c : State V}
-    (h1 : Trace strict C W a b) (h2 : Trace strict C W b c) : Trace strict C W a c := by
+theorem Trace.trans {strict : Bool} {xs : List V} {C : Cls} {W : World V} {a b c : State V}
+    (h1 : Trace strict xs C W a b) (h2 : Trace strict xs C W b c) : Trace strict xs C W a c := by
   induction h1 with
   | refl => exact h2
   | step p hp _ ih => exact .step p hp (ih h2)
 
 /-- an invariant kept by every permitted primitive is kept along a trace -/
-theorem Trace.preserves {strict : Bool} {C : Cls} {W : World V} (P : State V → Prop)
-    (hP : ∀ s p, P s → Prim.ok strict C W s p → P (p.apply C W s)) {a b : State V}
-    (h : Trace strict C W a b) (ha : P a) : P b := by
+theorem Trace.preserves {strict : Bool} {xs : List V} {C : Cls} {W : World V} (P : State V → Prop)
+    (hP : ∀ s p, P s → Prim.ok strict xs C W s p → P (p.apply C W s)) {a b : State V}
+    (h : Trace strict xs C W a b) (ha : P a) : P b := by
   induction h with
   | refl => exact ha
   | step p hp _ ih => exact ih (hP _ p ha hp)
@@ -160,19 +161,23 @@ def removalTarget (C : Cls) (s : State V) : Op V → Option Field
   | _ => none
 
 /-- `KnownDefect`: the operation removes a present field while a property computed from it stays stored
-(schema.py:373-399, 422-445 recompute nothing) -/
+(schema.py:394-420, 443-466 recompute nothing) -/
 def knownDefect (C : Cls) (s : State V) (op : Op V) : Bool :=
   match removalTarget C s op with
-  | some f => s.data.has f.name && f.dependants.any s.data.has
+  | some f =>
+    -- the removal goes through (no immutability, not required) …
+    !C.opts.immutable && !f.immutable && !(f.required && !C.opts.ignoreRequired) &&
+      -- … of a present field, and a property computed from it stays stored
+      s.data.has f.name && f.dependants.any s.data.has
   | none => false
 
 /-! ### the operations as traces -/
 
 section
-variable {C : Cls} {W : World V} {strict : Bool}
+variable {C : Cls} {W : World V} {strict : Bool} {xs : List V}
 
-theorem fieldSetter_trace (hwf : WF C) (s : State V) {f : Field} (hf : f ∈ C.fields) (v : V) :
-    Trace strict C W s (fieldSetter C W s f v).1 := by
+theorem fieldSetter_trace (hwf : WF C) (s : State V) {f : Field} (hf : f ∈ C.fields) (v : V) (hv : v ∈ xs) :
+    Trace strict xs C W s (fieldSetter false C W s f v).1 := by
   unfold fieldSetter
   split
   · exact .refl _
@@ -182,25 +187,41 @@ theorem fieldSetter_trace (hwf : WF C) (s : State V) {f : Field} (hf : f ∈ C.f
     split
     · rename_i hp
       have hd : f.dependants = [] := (hwf.propPlain f hf hp).2.2.2
-      have : coerceDependants C W (coerce C W s f) f = coerce C W s f := by
-        simp [coerceDependants, hd]
-      simp only [this]
-      exact Trace.one (.recompute f) ⟨hf, hp⟩
+      cases hc : coerce false C W s f with
+      | mk s1 b =>
+        cases b with
+        | true => exact .refl _
+        | false =>
+          simp only [coerceDependants, hd, coerceList]
+          have h1 : (coerce false C W s f).1 = s1 := by rw [hc]
+          rw [← h1]
+          exact Trace.one (.recompute f) ⟨hf, hp, by rw [hc]⟩
     · rename_i hp
       split
       · exact .refl _
       · rename_i pv hpv
-        exact Trace.one (.store f pv) ⟨hf, by simpa using hp, him'.2, him'.1, v, hpv⟩
+        cases hc : coerceDependants false C W (storeField s f pv) f with
+        | mk s2 b =>
+          have hc' : coerceDependants false C W
+              (if f.noOutput = true then { data := s.data.del f.name, attrs := s.attrs.set f.attname pv }
+               else { data := s.data.set f.name pv, attrs := s.attrs }) f = (s2, b) := hc
+          simp only [hc']
+          cases b with
+          | true => exact .refl _
+          | false =>
+            have h1 : (coerceDependants false C W (storeField s f pv) f).1 = s2 := by rw [hc]
+            rw [← h1]
+            exact Trace.one (.store f pv) ⟨hf, by simpa using hp, him'.2, him'.1, ⟨v, hv, hpv⟩, by rw [hc]⟩
 
-theorem setitem_trace (hwf : WF C) (s : State V) (k : String) (v : V) :
-    Trace strict C W s (setitem false C W s k v).1 := by
+theorem setitem_trace (hwf : WF C) (s : State V) (k : String) (v : V) (hv : v ∈ xs) :
+    Trace strict xs C W s (setitem false C W s k v).1 := by
   unfold setitem
   split
   · exact .refl _
   · rename_i him
     split
     · rename_i f hf
-      exact fieldSetter_trace hwf s (getField_some hf).1 v
+      exact fieldSetter_trace hwf s (getField_some hf).1 v hv
     · rename_i hf
       split
       · exact .refl _
@@ -208,39 +229,43 @@ theorem setitem_trace (hwf : WF C) (s : State V) (k : String) (v : V) :
         · exact .refl _
         · exact .refl _
         · rename_i ha
-          exact Trace.one (.setAdd k v) ⟨hf, by simpa using him, Or.inl ha⟩
+          exact Trace.one (.setAdd k v) ⟨hf, by simpa using him, Or.inl ⟨ha, hv⟩⟩
         · rename_i ha
           split
           · exact .refl _
           · rename_i a hpa
-            exact Trace.one (.setAdd k a) ⟨hf, by simpa using him, Or.inr ⟨ha, v, hpa⟩⟩
+            exact Trace.one (.setAdd k a) ⟨hf, by simpa using him, Or.inr ⟨ha, v, hv, hpa⟩⟩
 
-theorem setitems_trace (hwf : WF C) (kvs : List (String × V)) :
-    ∀ s : State V, Trace strict C W s (setitems false C W s kvs).1 := by
+theorem setitems_trace (hwf : WF C) (kvs : List (String × V)) (hk : ∀ kv ∈ kvs, kv.2 ∈ xs) :
+    ∀ s : State V, Trace strict xs C W s (setitems false C W s kvs).1 := by
   induction kvs with
   | nil => intro s; exact .refl _
   | cons kv kvs ih =>
     intro s
     obtain ⟨k, v⟩ := kv
-    have h1 := setitem_trace (strict := strict) (W := W) hwf s k v
+    have h1 := setitem_trace (strict := strict) (W := W) hwf s k v (hk (k, v) (by simp))
     unfold setitems
     cases hr : setitem false C W s k v with
     | mk s' r =>
       rw [hr] at h1
       cases r with
-      | ok _ => exact h1.trans (ih s')
+      | ok _ => exact h1.trans (ih (fun kv h => hk kv (by simp [h])) s')
       | err e => exact h1
 
-theorem update_trace (hwf : WF C) (s : State V) (kvs : List (String × V)) :
-    Trace strict C W s (update false C W s kvs).1 := by
+theorem update_trace (hwf : WF C) (s : State V) (kvs : List (String × V)) (hk : ∀ kv ∈ kvs, kv.2 ∈ xs) :
+    Trace strict xs C W s (update false C W s kvs).1 := by
   unfold update
   split
   · exact .refl _
-  · exact setitems_trace hwf kvs s
+  · exact setitems_trace hwf kvs hk s
+
+/-- the part of `knownDefect` that is left once the removal is known to go through -/
+def staleAfter (s : State V) (f : Field) : Bool := s.data.has f.name && f.dependants.any s.data.has
 
 theorem fieldDeleter_trace (s : State V) {f : Field} (hf : f ∈ C.fields)
-    (hd : strict = true → (s.data.has f.name && f.dependants.any s.data.has) = false) :
-    Trace strict C W s (fieldDeleter false C s f).1 := by
+    (hd : strict = true → (!C.opts.immutable && !f.immutable && !(f.required && !C.opts.ignoreRequired) &&
+      s.data.has f.name && f.dependants.any s.data.has) = false) :
+    Trace strict xs C W s (fieldDeleter false C s f).1 := by
   unfold fieldDeleter
   split
   · exact .refl _
@@ -254,20 +279,24 @@ theorem fieldDeleter_trace (s : State V) {f : Field} (hf : f ∈ C.fields)
       · exact .refl _
       · rename_i hhas
         have hhas' : s.data.has f.name = true := by simpa using hhas
+        have hreq' : (f.required && !C.opts.ignoreRequired) = false := by simpa using hreq
         refine Trace.one (.remove f) ⟨hf, him'.2, him'.1, ?_, hhas', ?_⟩
         · cases h1 : f.required <;> cases h2 : C.opts.ignoreRequired <;> simp_all
         · intro hs q hq
           have := hd hs
-          simp only [hhas', Bool.true_and, List.any_eq_false] at this
+          simp only [him'.1, him'.2, hreq', hhas', Bool.not_false, Bool.true_and, List.any_eq_false] at this
           simpa using this q hq
 
 theorem pop_trace (s : State V) (k : String) (d : Option V)
-    (hd : strict = true → ∀ f, getField C k = some f → (s.data.has f.name && f.dependants.any s.data.has) = false) :
-    Trace strict C W s (pop false C s k d).1 := by
+    (hd : strict = true → ∀ f, getField C k = some f →
+      (!C.opts.immutable && !f.immutable && !(f.required && !C.opts.ignoreRequired) &&
+        s.data.has f.name && f.dependants.any s.data.has) = false) :
+    Trace strict xs C W s (pop false C s k d).1 := by
   unfold pop
   split
   · exact .refl _
   · rename_i him
+    have him' : C.opts.immutable = false := by simpa using him
     split
     · rename_i hf
       split
@@ -277,21 +306,23 @@ theorem pop_trace (s : State V) (k : String) (d : Option V)
       split
       · exact .refl _
       · rename_i hfi
+        have hfi' : f.immutable = false := by simpa using hfi
         split
         · exact .refl _
         · rename_i hreq
+          have hreq' : (f.required && !C.opts.ignoreRequired) = false := by simpa using hreq
           split
           · rename_i v hv
             have hhas : s.data.has f.name = true := (has_iff _ _).mpr ⟨v, hv⟩
-            refine Trace.one (.remove f) ⟨(getField_some hf).1, by simpa using hfi, by simpa using him, ?_, hhas, ?_⟩
+            refine Trace.one (.remove f) ⟨(getField_some hf).1, hfi', him', ?_, hhas, ?_⟩
             · cases h1 : f.required <;> cases h2 : C.opts.ignoreRequired <;> simp_all
             · intro hs q hq
               have := hd hs f hf
-              simp only [hhas, Bool.true_and, List.any_eq_false] at this
+              simp only [him', hfi', hreq', hhas, Bool.not_false, Bool.true_and, List.any_eq_false] at this
               simpa using this q hq
           · split <;> exact .refl _
 
-theorem clear_trace (s : State V) : Trace strict C W s (clear false C s).1 := by
+theorem clear_trace (s : State V) : Trace strict xs C W s (clear false C s).1 := by
   unfold clear
   split
   · exact .refl _
@@ -308,11 +339,11 @@ theorem clear_trace (s : State V) : Trace strict C W s (clear false C s).1 := by
       | false => exact Or.inl rfl
       | true => exact Or.inr (h2 h)
 
-/-- Every operation of the repaired model is a guarded sequence of primitives; outside the known
-defect the sequence is strict. -/
+/-- Every operation of the repaired model is a guarded sequence of primitives whose converted values come from
+the operation's own arguments; outside the known defect the sequence is strict. -/
 theorem step_trace (hwf : WF C) (s : State V) (op : Op V)
     (hd : strict = true → knownDefect C s op = false) :
-    Trace strict C W s (step false C W s op).1 := by
+    Trace strict op.args C W s (step false C W s op).1 := by
   cases op with
   | setattr a v =>
     simp only [step, setattr]
@@ -320,9 +351,9 @@ theorem step_trace (hwf : WF C) (s : State V) (op : Op V)
     · rename_i f hf
       split
       · exact .refl _
-      · exact fieldSetter_trace hwf s (fieldByAtt_some hf).1 v
+      · exact fieldSetter_trace hwf s (fieldByAtt_some hf).1 v (by simp [Op.args])
     · rename_i hf
-      exact Trace.one (.setAttrOther a v) hf
+      exact Trace.one (.setAttrOther a v) ⟨hf, by simp [Op.args]⟩
   | delattr a =>
     simp only [step, delattr]
     split
@@ -337,7 +368,7 @@ theorem step_trace (hwf : WF C) (s : State V) (op : Op V)
       split
       · exact Trace.one (.delAttrOther a) hf
       · exact .refl _
-  | setitem k v => exact setitem_trace hwf s k v
+  | setitem k v => exact setitem_trace hwf s k v (by simp [Op.args])
   | delitem k =>
     simp only [step, delitem]
     split
@@ -352,10 +383,10 @@ theorem step_trace (hwf : WF C) (s : State V) (op : Op V)
         split
         · exact Trace.one (.delKey k) hf
         · exact .refl _
-  | update kvs => exact update_trace hwf s kvs
+  | update kvs => exact update_trace hwf s kvs (fun kv h => by simp only [Op.args, List.mem_map]; exact ⟨kv, h, rfl⟩)
   | ior kvs =>
     simp only [step, Bool.false_eq_true, if_false]
-    exact update_trace hwf s kvs
+    exact update_trace hwf s kvs (fun kv h => by simp only [Op.args, List.mem_map]; exact ⟨kv, h, rfl⟩)
   | pop k d =>
     refine pop_trace s k d ?_
     intro hs f hf
@@ -376,7 +407,7 @@ theorem step_trace (hwf : WF C) (s : State V) (op : Op V)
     simp only [step, setdefault, Bool.false_eq_true, if_false]
     split
     · exact .refl _
-    · have h1 := setitem_trace (strict := strict) (W := W) hwf s k v
+    · have h1 := setitem_trace (strict := strict) (W := W) (xs := (Op.setdefault k v).args) hwf s k v (by simp [Op.args])
       cases hr : setitem false C W s k v with
       | mk s' r =>
         rw [hr] at h1
